@@ -180,12 +180,13 @@ class Ref:
         plan = self.plan
         rule = plan.rules.get((rec.cid, rec.event))
         if rule is not None:
-            evs, budget = rule
+            evs, budget = rule[0], rule[1]
+            same = len(rule) > 2      # identical nested sends (same tag, same kwargs)
             key = (rec.cid, rec.event)
             if self.fired[key] < budget:
                 self.fired[key] += 1
                 for k, ev in enumerate(evs):
-                    tag = child_tag(rec.tag, rec.cid, k)
+                    tag = child_tag(rec.tag, rec.cid, 0 if same else k)
                     try:
                         r = self._send(EvI(ev, tag, (), {"tag": tag}))
                     except Exception as e:
